@@ -213,6 +213,36 @@ def opacity_fn(case):
     return r
 
 
+def reuse_fn(case):
+    """One live model, a sequence of differently restricted evaluations; each must equal what a fresh model
+    returns for the same request (the value at a wavenumber depends neither on which other wavenumbers are
+    computed now nor on which were computed before)."""
+    r = core.R(case)
+    fx.reset_caches()
+    nat, grids, tabs = install(case['cfg'], 'tau1', case['kind'])
+    live = build(case)
+    names = []
+    for k, sub in enumerate(case['seq']):
+        req = None if sub is None else nat[::4][sub[0]:sub[1]].copy()
+        names.append('full' if sub is None else 'sub')
+        try:
+            g, s_, t, _ = live.model() if req is None else live.model(wngrid=req)
+        except Exception as e:
+            r.check(False, 'no-exception', 'reuse-exception/%s/%s' % (type(e).__name__, '>'.join(names)), exc=repr(e))
+            return r
+        fx_state = None
+        fresh = build(case)
+        gf, sf, tf, _ = fresh.model() if req is None else fresh.model(wngrid=req)
+        sig = '%s/%s/%s' % (case['kind'], case['cfg'], '>'.join(names))
+        r.eq(np.array(g, float), np.array(gf, float), 'reuse-grid', 'reuse-grid/' + sig, rtol=0)
+        if len(g) == len(gf):
+            r.eq(np.array(s_, float), np.array(sf, float), 'reuse-spectrum', 'reuse/' + sig, rtol=1e-12, seq=case['seq'][:k + 1])
+            r.eq(np.array(t, float), np.array(tf, float), 'reuse-tau', 'reuse-tau/' + sig, rtol=1e-12, atol=1e-300)
+        r.observe(np.array(s_, float))
+    r.nontrivial = True
+    return r
+
+
 def explore(ctx):
     thorough = ctx.tier == 'thorough'
     subs = [(i, j) for i in range(10) for j in range(i + 2, 11)]
@@ -241,4 +271,14 @@ def explore(ctx):
                 if thorough or (j - i) in (1, 2, 3, 7, nf):
                     ocases.append({'spacing': spacing, 'ng': ng, 'TP': TP, 'req': ['foreign', [i, j]]})
     ctx.run_cases('opacity_fn', ocases, phase='opacity')
+    reqs = [None, [0, 3], [2, 6], [5, 10], [1, 3], [7, 9]]
+    depth = 3 if thorough else 2
+    rcases = []
+    for cfg in (GRIDCFG if thorough else ['one-log', 'two-offgrid-uniform', 'two-samelen-offset-log']):
+        for kind in ('transmission', 'emission'):
+            for d in range(2, depth + 1):
+                for seq in itertools.product(reqs, repeat=d):
+                    rcases.append({'cfg': cfg, 'kind': kind, 'seq': [q for q in seq]})
+    ctx.run_cases('reuse_fn', rcases, phase='reuse')
+    ctx.bounds.update(reuse_sequences=len(rcases), reuse_depth=depth)
     ctx.bounds.update(model_cases=len(mcases), opacity_cases=len(ocases), subranges=len(subs))
